@@ -129,3 +129,50 @@ sync_properties = Contract(
 sync_properties.opaque = _SP_OPAQUE
 
 CONTRACTS.append(sync_properties)
+
+# ------------------------------------------------------------------------------------------- ground_truth
+_GT_OPAQUE = {
+    "_get_name_from_namespace": {"ret": "str"}, "open": {"ret": ("obj", None)}, "ast_parse": {"ret": ("obj", "ast.Module")},
+    "find_in_ast": {"ret": "obj"}, "parse_func": {"ret": "obj"}, "_default_options": {"ret": "kwargs-thunk"}, "strip_split": {"ret": "obj"},
+    "OrderedDict": {"ret": "obj"}, "_conform_filename": {"ret": "obj", "effect": True}, "emit.file": {"ret": "none", "effect": True},
+}
+
+
+def _ns(truth, classes, functions, argparse_functions):
+    def files(n, tag):
+        return None if n is None else ("list", ["str"] * n)
+
+    return ("node", "argparse.Namespace", {
+        "truth": ("lit", truth),
+        "classes": files(classes, "c"), "class_names": None if classes is None else ("list", ["str"]),
+        "functions": files(functions, "f"), "function_names": None if functions is None else ("list", ["str"]),
+        "argparse_functions": files(argparse_functions, "a"), "argparse_function_names": None if argparse_functions is None else ("list", ["str"]),
+    })
+
+
+ground_truth = Contract(
+    "doctrans.conformance:ground_truth",
+    properties=["C20", "C10", "C09"],
+    note="the Namespace is a record with symbolic file names; parsing, lookup and _conform_filename are opaque and logged",
+    cases=[
+        Case("three-kinds", {"args": _ns("class", 1, 1, 1), "truth_file": "str"}),
+        Case("two-kinds", {"args": _ns("function", 1, 1, None), "truth_file": "str"}),
+        Case("two-files-one-kind", {"args": _ns("argparse_function", 2, None, 1), "truth_file": "str"}),
+    ],
+    ensures=[
+        Clause("GT-truth-read-only", "log_open_n == 1 and log_open_args[0][0] == truth_file and log_open_args[0][1] == 'rt'",
+               note="C10: the truth file is opened once, for reading"),
+        Clause("GT-writes-only-via-conform", "log_emit_file_n == 0", note="ground_truth itself never writes: every write goes through _conform_filename"),
+        Clause("GT-order[three]", "tuple(k['filename'] for k in log__conform_filename_kwargs) == (args.argparse_functions[0], args.classes[0], args.functions[0])",
+               when=["three-kinds"], note="C20.D4: targets are processed one after the other, in a fixed order, each exactly once"),
+        Clause("GT-order[two]", "tuple(k['filename'] for k in log__conform_filename_kwargs) == (args.classes[0], args.functions[0])",
+               when=["two-kinds"], note="a kind that was not given is skipped (C09.D4)"),
+        Clause("GT-order[two-files]", "tuple(k['filename'] for k in log__conform_filename_kwargs) == (args.argparse_functions[0], args.classes[0], args.classes[1])",
+               when=["two-files-one-kind"]),
+        Clause("GT-after-parse", "log_pos__conform_filename[0] > log_pos_parse_func[0]", note="the truth is parsed once, before any target is touched"),
+    ],
+    raises={"AssertionError": "False"},
+    canaries=["log__conform_filename_n == 2"],
+)
+ground_truth.opaque = _GT_OPAQUE
+CONTRACTS.append(ground_truth)
